@@ -479,6 +479,17 @@ class Walker:
         elif cls == 7:
             if (bits & 0xF) > 1:
                 raise SpecError("%s: reference type %d" % (where, bits & 0xF))
+        elif cls == 9:
+            vt, vpad, vcs = bits & 0xF, (bits >> 4) & 0xF, (bits >> 8) & 0xF
+            if vt > 1 or vpad > 2 or vcs > 1 or bits >> 12:
+                raise SpecError("%s: variable-length class bits %#x" % (where, bits))
+            if size != 4 + self.O + 4:
+                raise SpecError("%s: variable-length element size %d (length + global heap ID = %d)" % (where, size, 8 + self.O))
+            t["vlen"] = "string" if vt == 1 else "sequence"
+            t["base"] = self.datatype(d[8:], where + " base type", pad_ok)
+            if vt == 1 and (t["base"]["cls"], t["base"]["size"]) != (3, 1):
+                raise SpecError("%s: variable-length string whose base type is class %d size %d" % (where, t["base"]["cls"], t["base"]["size"]))
+            p = len(d)
         else:
             raise Unsupported("%s: datatype class %d" % (where, cls))
         rest = d[p:]
@@ -728,6 +739,87 @@ class Walker:
                 dst = sum((o + i) * s for o, i, s in zip(offs, idx, dstr)) + offs[last]
                 out[dst * esz:(dst + nlast) * esz] = raw[src * esz:(src + nlast) * esz]
         return bytes(out), info
+
+    # -- global heap, variable-length elements
+    def gcol(self, addr, owner):
+        if not hasattr(self, "gcols"):
+            self.gcols = {}
+        if addr in self.gcols:
+            return self.gcols[addr]
+        L = self.L
+        if self.rd(addr, 4, "global heap collection of " + owner) != b"GCOL":
+            raise SpecError("global heap collection of %s at %d: signature %r" % (owner, addr, bytes(self.b[addr:addr + 4])))
+        if self.b[addr + 4] != 1 or any(self.b[addr + 5:addr + 8]):
+            raise SpecError("global heap collection at %d: version/reserved bytes" % addr)
+        size = self.u(addr + 8, L)
+        if size < 4096:
+            raise SpecError("global heap collection at %d: size %d below the 4096-byte minimum" % (addr, size))
+        self.ext(addr, addr + size, "gcol", "global heap")
+        end = addr + size
+        p = addr + 8 + L
+        objs = {}
+        while end - p >= 8 + L:
+            idx, ref = self.u(p, 2), self.u(p + 2, 2)
+            if any(self.b[p + 4:p + 8]):
+                raise SpecError("global heap collection at %d: reserved bytes of object header at %d" % (addr, p))
+            osz = self.u(p + 8, L)
+            if idx == 0:
+                if osz == end - p:
+                    pass
+                elif osz == end - p - (8 + L):
+                    self.deviate("gcol-free-size", "gcol@%d" % addr, "free-space object (index 0) records %d bytes, the remaining space including its own header is %d (the specification's size of object 0 includes the object header)" % (osz, end - p))
+                elif osz == 0 and ref == 0 and not any(self.b[p:end]):
+                    pass        # zero fill: no object 0 written; the free space is implicit
+                else:
+                    raise SpecError("global heap collection at %d: free-space object at %d has size %d, %d bytes remain" % (addr, p, osz, end - p))
+                break
+            if idx in objs:
+                raise SpecError("global heap collection at %d: object index %d appears twice" % (addr, idx))
+            if p + 8 + L + osz > end:
+                raise SpecError("global heap collection at %d: object %d (%d bytes) runs past the collection end" % (addr, idx, osz))
+            objs[idx] = bytes(self.b[p + 8 + L:p + 8 + L + osz])
+            p += 8 + L + (osz + 7) // 8 * 8
+        self.gcols[addr] = objs
+        return objs
+
+    def vlen_elements(self, raw, dt, owner):
+        O = self.O
+        es = dt["size"]
+        bsz = dt["base"]["size"]
+        def dec(mode):
+            out = []
+            for i in range(0, len(raw), es):
+                e = raw[i:i + es]
+                if mode == "spec":
+                    ln, addr, idx = int.from_bytes(e[0:4], "little"), int.from_bytes(e[4:4 + O], "little"), int.from_bytes(e[4 + O:8 + O], "little")
+                else:
+                    addr, idx, ln = int.from_bytes(e[0:O], "little"), int.from_bytes(e[O:O + 4], "little"), None
+                    if any(e[O + 4:]):
+                        return None
+                if (addr == 0 or self.undef(addr)) and idx == 0:
+                    if ln:
+                        return None
+                    out.append(b"")
+                    continue
+                if addr + 16 > self.n or self.b[addr:addr + 4] != b"GCOL":
+                    return None
+                objs = self.gcol(addr, owner)
+                if idx not in objs:
+                    return None
+                o = objs[idx]
+                if ln is not None and ln * bsz != len(o):
+                    return None
+                if len(o) % bsz:
+                    return None
+                out.append(o)
+            return out
+        r = dec("spec")
+        if r is None:
+            r = dec("lib")
+            if r is None:
+                raise SpecError("%s: variable-length elements do not reference global heap objects" % owner)
+            self.deviate("vlen-elem-no-length", owner, "variable-length elements are stored as (collection address, object index, 0); the specification stores (sequence length, collection address, object index)")
+        return r
 
     # -- attributes
     def attribute(self, d, where, v1pad=False):
@@ -1118,6 +1210,8 @@ class Walker:
             data, info = self.dataset_data(lay, dt, ds, pipe, owner)
             node["data"] = data
             node.update(info)
+            if dt["cls"] == 9:
+                node["vlen"] = self.vlen_elements(data, dt, owner) if node_allocated(lay, self) else [b""] * ds["nelem"]
             node["allocated"] = not (lay["cls"] == "chunked" and (lay["addr"] == 0 or self.undef(lay["addr"])))
         else:
             raise SpecError("%s: object header is neither a group nor a dataset (message types %s)" % (owner, sorted(by)))
@@ -1165,6 +1259,10 @@ class Walker:
         return root
 
 
+def node_allocated(lay, w):
+    return not (lay["cls"] == "chunked" and (lay["addr"] == 0 or w.undef(lay["addr"])))
+
+
 def overlaps(extents):
     """sorted sweep: list of pairs of overlapping extents"""
     out = []
@@ -1196,7 +1294,7 @@ if __name__ == "__main__":
         for o in overlaps(r["extents"]):
             print("  OVERLAP", o)
         for a, nd in r["tree"]["objects"].items():
-            print("  obj", a, nd["path"], nd["kind"], {k: (v if k != "data" else v[:16].hex()) for k, v in nd.items() if k in ("dims", "maxdims", "layout", "chunk", "filters", "data", "refcount", "error")},
+            print("  obj", a, nd["path"], nd["kind"], {k: (v if k != "data" else v[:16].hex()) for k, v in nd.items() if k in ("dims", "maxdims", "layout", "chunk", "filters", "data", "refcount", "error", "vlen")},
                   "attrs", {k: (v["dt"]["cls"], v["dt"]["size"], v["dims"], v["data"][:8].hex()) for k, v in nd["attrs"].items()})
         seen = set()
         for t, wh, de in r["deviations"]:
